@@ -113,7 +113,8 @@ PROPS = {
                 "sampled through schedule perturbation (its protocol-level treatment is C19; C05_layout_arrival covers every arrival order of the files).",
         "rule": "150 (quick) / 4000 (thorough) journals x 5-10 variants; variant 0 = original order in one file; others = random permutation distributed over a random include tree; a fifth of "
                 "the journals carry a lifecycle mutation so that rejecting verdicts are compared too. class = (verdict, flag signature, number of tree shapes, size). "
-                "Stream `order`: 200 / 2500 journals in which busy days of 2-6 same-day transactions on one account are followed, on a later day, by a directive that breaks one rule of the checker (booking on a closed / never opened / not yet opened account, second open or close, close with a position, failed assertion, assertion on a closed account; two valid controls), x 6-10 variants incl. same-day shuffles, plus 8 / 16 further orders judged in-process: every order and layout must give the same verdict, and the model's verdict.",
+                "Stream `order`: 200 / 2500 journals in which busy days of 2-6 same-day transactions on one account are followed, on a later day, by a directive that breaks one rule of the checker (booking on a closed / never opened / not yet opened account, second open or close, close with a position, failed assertion, assertion on a closed account; two valid controls), x 6-10 variants incl. same-day shuffles, plus 8 / 16 further orders judged in-process: every order and layout must give the same verdict, and the model's verdict. "
+                "Stream `prices`: 120 / 2500 valued reports over price graphs with several equally long price chains of different products from the valuation commodity to a held commodity (diamonds, wide / long / stacked, rings, layered graphs, quotes spread over days, re-quotes on other days; no pair twice a day), the commodities first mentioned in prices, bookings and assertions, x 6-10 variants incl. one directive moved to the top and same-day price shuffles: same balance bytes in every order and layout, and the model's.",
         "assumptions": ["journals with two prices for one commodity pair on one day are not generated (excluded by the property)"],
     },
     "C03": {
